@@ -56,6 +56,8 @@ type zoneRun struct {
 	elapsed    time.Duration
 }
 
+var hostileDefaultTTL = true
+
 func runHostile(text string, allowInclude bool, withFS bool, origin string, measure bool) zoneRun {
 	var zr zoneRun
 	cfs := &countingFS{inner: fstest.MapFS{"self.db": {Data: []byte("$INCLUDE self.db\nx A 10.0.0.1\n")}, "etc/passwd": {Data: []byte("secret A 10.9.9.9\n")}, "x": {Data: []byte("y A 10.0.0.2\n")}}}
@@ -74,6 +76,9 @@ func runHostile(text string, allowInclude bool, withFS bool, origin string, meas
 		}()
 		zp := dns.NewZoneParser(strings.NewReader(text), origin, "hostile.db")
 		zp.SetIncludeAllowed(allowInclude)
+		if hostileDefaultTTL {
+			zp.SetDefaultTTL(3600) // without a default most records stop at "missing TTL" before their RDATA is read
+		}
 		if withFS {
 			zp.SetIncludeFS(cfs)
 		}
@@ -146,6 +151,7 @@ func runC07(c *Ctx) {
 		}
 		origin := []string{"", "example.org.", "."}[r.Intn(3)]
 		measure := i%64 == 0
+		hostileDefaultTTL = !r.Chance(15)
 		zr := runHostile(text, allow, withFS, origin, measure)
 		in := fmt.Sprintf("allow=%v fs=%v origin=%q zone=%s", allow, withFS, origin, hxs(text))
 		nt := len(text) > 10
@@ -190,6 +196,9 @@ func runC07(c *Ctx) {
 		{"nul", "a\x00b A 10.0.0.1\n"},
 		{"dangling-escape", "a\\"},
 	}
+	hostileDefaultTTL = true
+	cases = append(cases, tc{"nsec-close", "a. NSEC b. A ) \nb. A 10.0.0.1\n"}, tc{"csync-open", "a. CSYNC 1 1 ( A "}, tc{"loc-open", "a. LOC 1 N 1 E 1m ( 1m "},
+		tc{"nsec3-open", "a. NSEC3 1 0 0 - abcdefgh ( A "})
 	for _, k := range cases {
 		zr := runHostile(k.zone, true, true, "example.org.", true)
 		c.Pred("directed", "no-panic-no-hang", k.name, !zr.panicked && !zr.hung, fmt.Sprint(zr.panicked, zr.hung), "returns", true)
